@@ -31,7 +31,9 @@ KNOWN_SEP = "SeparatorTerminatorDiffers"
 GEN_TARGETS = ["threads", "choose_driver", "walk_sorted_by_name", "sort_is_identity", "printer_owns_separator",
                "file_separator"]
 
-MODES = ["noheading", "heading", "context", "context_heading", "count", "list", "json", "files", "passthru_nh"]
+MODES = ["noheading", "heading", "context", "context_heading", "count", "list", "json", "files", "passthru_nh",
+         "after_only", "before_only", "c2a0"]
+CONTEXT_NH = ("context", "after_only", "before_only", "c2a0")
 
 
 def gen_tree(rng, root):
@@ -157,6 +159,12 @@ def mode_args(mode):
         a += ["--heading", "-n"]
     elif mode == "context":
         a += ["--no-heading", "-n", "-C", "1"]
+    elif mode == "after_only":
+        a += ["--no-heading", "-n", "-A", "1"]
+    elif mode == "before_only":
+        a += ["--no-heading", "-n", "-B", "2"]
+    elif mode == "c2a0":
+        a += ["--no-heading", "-n", "-C", "2", "-A", "0"]
     elif mode == "context_heading":
         a += ["--heading", "-n", "-A", "1"]
     elif mode == "count":
@@ -176,8 +184,8 @@ def separator_of(mode):
     """the file separator line (without terminator) the mode's configuration implies, or None"""
     if mode in ("heading", "context_heading"):
         return b""
-    if mode == "context":
-        return b"--"
+    if mode in CONTEXT_NH:
+        return b"--"          # any context at all (before or after) turns the context separator into the file separator
     return None
 
 
@@ -195,7 +203,7 @@ def split_blocks(mode, out):
     summary = None
     for ln in lines:
         key = None
-        if mode in ("noheading", "context", "passthru_nh"):
+        if mode in ("noheading", "passthru_nh") + CONTEXT_NH:
             m = re.match(rb"([^:\-]+\.txt)[:\-]", ln)
             key = m.group(1) if m else None
         elif mode in ("count",):
@@ -228,7 +236,7 @@ def split_blocks(mode, out):
             ln = ELAPSED.sub(b'"elapsed":0', ln)
         keyed.append((key, ln))
     # an inner `--` of the no-heading context mode belongs to the file when both neighbours are that file
-    if mode == "context":
+    if mode in CONTEXT_NH:
         for i, (k, ln) in enumerate(keyed):
             if k is None and ln == b"--" and 0 < i < len(keyed) - 1 and keyed[i - 1][0] is not None \
                     and keyed[i - 1][0] == keyed[i + 1][0]:
@@ -277,6 +285,8 @@ def check_cli(ctx, rng, ntrees, runs_per_tree):
             jobs.append(dict(root=root, mode=mode, n=n, pre=False, sort=False, follow=False, explicit=True))
     for mode, n in (("noheading", 2), ("files", 4), ("list", 8)):
         jobs.append(dict(root=root, mode=mode, n=n, pre=False, sort=False, follow=True, explicit=False, maxsize=25))
+    for mode, n in (("after_only", 2), ("before_only", 3), ("c2a0", 4), ("context", 2), ("after_only", 8)):
+        jobs.append(dict(root=root, mode=mode, n=n, pre=False, sort=False, follow=False, explicit=True))
     for mode, n in (("noheading", 2), ("heading", 4), ("context", 3), ("count", 8), ("json", 2)):
         jobs.append(dict(root=root, mode=mode, n=n, pre=False, sort=False, follow=False, explicit=False, stats=True))
     for _ in range(ntrees):
@@ -358,8 +368,16 @@ def check_cli(ctx, rng, ntrees, runs_per_tree):
             continue
         bad_err = [r for r in (rn, rn2) if canon_err(r["err"]) != e1]
         if p1:
-            ctx.violation("the -j1 output does not follow the block grammar (check or printer changed): " + p1[0], replay,
-                          nfi=True)
+            # a -j1 output that breaks the grammar is a failing input when the -jN output of the same tree obeys it
+            # (then it cannot be a permutation of it), and always when it is the separator rule that is broken: which
+            # line separates two files is fixed by the mode, not by the other run
+            _, pn_, _ = split_blocks(j["mode"], rn["out"])
+            sep_rule = any("separator lines" in x or "unexpected lines between" in x for x in p1)
+            both_same = bool(pn_) and [x.split(":")[0] for x in pn_] == [x.split(":")[0] for x in p1]
+            full = dict(replay, j1_full=repr(r1["out"][:3000]), jn_full=repr(rn["out"][:3000]))
+            ctx.violation("the -j1 output does not follow the block grammar%s: %s" % (
+                "" if both_same else " while the -j%d output does" % j["n"], p1[0]), full,
+                nfi=(both_same and not sep_rule))
             continue
         failed = False
         for r in (rn, rn2):
